@@ -8,14 +8,16 @@ import hist
 from framework import gbool, glist, gnat, gpair
 
 PROP = 'C09'
-CHECK_MODS = ['Model.Core', 'Model.Manager', 'Checks.Corechk', 'Checks.CoreProps', 'Checks.C06chk', 'Checks.C09chk']
+CHECK_MODS = ['Model.Core', 'Model.Manager', 'Model.ManagerSp', 'Checks.Corechk', 'Checks.CoreProps', 'Checks.C06chk', 'Checks.C09chk']
 CASE_TYPE = 'C09_case'
 CORR, PROPCHK = 'C09_corr', 'C09_prop'
 THEOREMS = ['C09_locality', 'C09_interleaving_equals_solo_run', 'C09_interleaving_with_execution_options',
             'C09_execution_options_adopt_nothing', 'C09_each_session_is_a_core_run', 'C09_unit_of_work_is_the_code', 'C09_clear_is_the_code',
             'C09_clear_connection_is_the_code', 'C09_track_cloned_connections_is_the_code', 'C09_maps_stay_dictionaries', 'C09_quiescent_after_rollback',
-            'C09_quiescent_after_commit', 'C09_example']
-RULE = ('k = 2 or 3 session programs (add / set / delete / flush / commit / rollback / close / set-execution-options-on-the-connection steps over the blog shape) are '
+            'C09_quiescent_after_commit', 'C09_example', 'C09_savepoint_locality', 'C09_interleaving_with_savepoints_equals_solo_run',
+            'C09_each_session_is_a_savepoint_run', 'C09_savepoint_example']
+RULE = ('k = 2 or 3 session programs (add / set / delete / flush / commit / rollback / close / set-execution-options-on-the-connection / '
+        'begin-, roll-back-, release-savepoint steps over the blog shape; schedules with savepoints are replayed in Layer M with savepoints, Model/ManagerSp.v) are '
         'interleaved step by step; each session has its own SQLite database, engine and connection but all share the one '
         'VersioningManager, the mappers and the version classes, so every interleaving is executable and "same as the solo '
         'run" is an exact equality. After every recorded event the manager\'s two maps are read; at the end each session\'s '
@@ -58,6 +60,41 @@ def gen_session_prog(rng, sid):
     return prog
 
 
+def gen_sp_prog(rng, i):
+    """a session program with savepoints: up to two levels, begun before or after the first versioned flush (the unit
+    of work then exists / comes into being inside the savepoint), rolled back or released, sometimes left open at the
+    commit"""
+    pr, depth, key = [], 0, 2
+    if i % 2 == 0 or rng.random() < 0.3:
+        pr += [['add', rng.choice([0, 1]), 1, {'a': 1}], ['flush']]
+    pr += [['sp_begin']]
+    depth += 1
+    for _ in range(rng.randint(2, 6)):
+        r = rng.random()
+        if r < 0.2 and depth < 2:
+            pr.append(['sp_begin'])
+            depth += 1
+        elif r < 0.55:
+            pr.append(['add', rng.choice([0, 1, 3]), key, {'a': key}])
+            key += 1
+            if rng.random() < 0.7:
+                pr.append(['flush'])
+        elif r < 0.8 and depth:
+            pr.append([rng.choice(['sp_rollback', 'sp_rollback', 'sp_release'])])
+            depth -= 1
+        else:
+            pr.append(['flush'])
+    if rng.random() < 0.75:
+        while depth:
+            pr.append([rng.choice(['sp_rollback', 'sp_release'])])
+            depth -= 1
+    pr.append(['add', 1, key, {'a': 3}])
+    if rng.random() < 0.5:
+        pr.append(['flush'])
+    pr += [[rng.choice(['commit', 'commit', 'rollback'])], ['set', 1, key, {'a': 4}], [rng.choice(['commit', 'rollback', 'close'])]]
+    return pr
+
+
 def gen_cases(rng, n, tier):
     out = []
     cfgs = [dict(shape='blog', strategy=s, changes=c, twin=False) for s in ('validity', 'subquery') for c in (False, True)]
@@ -69,27 +106,14 @@ def gen_cases(rng, n, tier):
             order += [j] * len(p)
         rng.shuffle(order)
         out.append(dict(cfg=cfgs[i % len(cfgs)], progs=progs, order=order))
-    # savepoints in interleaved sessions (observation-only: per-session result = solo run, nothing left in memory)
-    for i in range(max(10, n // 8)):
-        progs = []
-        for j in range(2 if i % 3 else 3):
-            pr = []
-            if rng.random() < 0.5:
-                pr += [['add', rng.choice([0, 1]), 1, {'a': 1}], ['flush']]
-            pr += [['sp_begin'], ['add', 0, 2, {'a': 2}]]
-            if rng.random() < 0.8:
-                pr.append(['flush'])
-            pr.append([rng.choice(['sp_rollback', 'sp_rollback', 'sp_release'])])
-            pr += [['add', 1, 2, {'a': 3}]]
-            if rng.random() < 0.5:
-                pr.append(['flush'])
-            pr += [['commit'], ['set', 1, 2, {'a': 4}], [rng.choice(['commit', 'rollback', 'close'])]]
-            progs.append(pr)
+    # savepoints in interleaved sessions (replayed in Layer M with savepoints, Model/ManagerSp.v)
+    for i in range(max(12, n // 6)):
+        progs = [gen_sp_prog(rng, i) for j in range(2 if i % 3 else 3)]
         order = []
         for j, p_ in enumerate(progs):
             order += [j] * len(p_)
         rng.shuffle(order)
-        out.append(dict(cfg=cfgs[i % len(cfgs)], progs=progs, order=order, obs_only=True))
+        out.append(dict(cfg=cfgs[i % len(cfgs)], progs=progs, order=order))
     if tier == 'thorough':
         base = [['add', 0, 1, {'a': 1}], ['flush'], ['set', 0, 1, {'a': 2}], ['commit']]
         other = [['add', 0, 1, {'a': 5}], ['flush'], ['rollback'], ['add', 1, 1, {'a': 0}], ['commit']]
@@ -100,7 +124,7 @@ def gen_cases(rng, n, tier):
 
 def corpus():
     cfg = dict(shape='blog', strategy='validity', twin=False)
-    return [dict(cfg=cfg, obs_only=True,
+    return [dict(cfg=cfg,
                  progs=[[['add', 0, 1, {'a': 1}], ['commit']],
                         [['sp_begin'], ['add', 0, 2, {'a': 2}], ['flush'], ['sp_rollback'], ['add', 1, 2, {'a': 3}], ['flush'], ['commit']]],
                  order=[1, 0, 0, 1, 1, 1, 1, 1, 1]),
@@ -110,6 +134,14 @@ def corpus():
                                  [['execopt'], ['add', 0, 1, {'a': 7}], ['flush'], ['commit']]], order=[0, 0, 1, 1, 1, 1, 0, 0, 0]),
             dict(cfg=cfg, progs=[[['add', 0, 1, {'a': 1}], ['flush'], ['add', 0, 2, {'a': 1}], ['commit']],
                                  [['add', 0, 1, {'a': 7}], ['flush'], ['commit']]], order=[0, 1, 0, 1, 0, 1, 0])]
+
+
+def _pysqlite_no_autobegin(dbapi_connection, connection_record):
+    dbapi_connection.isolation_level = None
+
+
+def _pysqlite_begin(conn):
+    conn.exec_driver_sql('BEGIN')
 
 
 class MultiRun(object):
@@ -122,6 +154,10 @@ class MultiRun(object):
         self.steps, self.maps = [], []
         for j in range(k):
             eng = sa.create_engine('sqlite://')
+            # the documented recipe for pysqlite: the driver begins a transaction only at the first DML statement, so
+            # a SAVEPOINT that is the first statement of a transaction would be RELEASEd as a COMMIT of its own
+            sa.event.listen(eng, 'connect', _pysqlite_no_autobegin)
+            sa.event.listen(eng, 'begin', _pysqlite_begin)
             conn = eng.connect()
             env.Base.metadata.create_all(conn)
             conn.commit()
@@ -159,6 +195,10 @@ class MultiRun(object):
         rec.trace.append(dict(ev=name))
         rec.snaps.append(rec.snapshot())
         self._on_event(rec, rec.trace[-1])
+
+    def mark_sp(self, j, name):
+        self.steps.append((j, dict(ev=name)))
+        self.maps.append(self.read_maps())
 
     def mark_opt(self, j):
         self.steps.append((j, dict(ev='execopt')))
@@ -237,12 +277,14 @@ def run_schedule(env, cfg, progs, order):
                     s.flush()
                 elif kind == 'sp_begin':
                     sps[j].append(s.begin_nested())
+                    mr.mark_sp(j, 'spbegin')
                 elif kind in ('sp_rollback', 'sp_release'):
                     if sps[j]:
                         h_ = sps[j].pop()
                         (h_.rollback if kind == 'sp_rollback' else h_.commit)()
                         if kind == 'sp_rollback':
                             rf.clear()
+                        mr.mark_sp(j, 'sprollback' if kind == 'sp_rollback' else 'sprelease')
                 elif kind == 'execopt':
                     # execution options set on the session's connection (set_connection_execution_options event)
                     mr.conns[j].execution_options(verif_marker=len(outcomes))
@@ -326,11 +368,21 @@ def quiescent(case):
 def encode(case, obs):
     if obs.get('exc'):
         return ('{| c9_cfg := mkcfg true false false false false []; c9_steps := []; c9_maps := []; c9_finals := []; '
-                'c9_solo := []; c9_quiescent := false; c9_obsonly := false; c9_exc := true |}')
+                'c9_solo := []; c9_quiescent := false; c9_obsonly := false; c9_spsteps := []; c9_exc := true |}')
     full = obs['full']
     ccfg = obs['ccfg']
     if case.get('obs_only'):
         full = dict(full, steps=[], maps=[full['maps_end']])
+    SP = {'spbegin': 'SBegin', 'sprollback': 'SRollback', 'sprelease': 'SRelease'}
+    uses_sp = any(se[1]['ev'] in SP for se in full['steps'])
+    if uses_sp:
+        if any(se[1]['ev'] == 'execopt' for se in full['steps']):
+            raise ValueError('savepoints and execution options in one schedule are not modelled together')
+        spsteps = glist(full['steps'], lambda se: '(%s, %s, %s)' % (
+            gnat(se[0]), gnat(se[0]), SP.get(se[1]['ev']) or '(SE %s)' % hist.g_event(se[1])))
+        full = dict(full, steps=[])
+    else:
+        spsteps = '[]'
     steps = glist(full['steps'], lambda se: '(%s, %s, %s)' % (
         gnat(se[0]), gnat(se[0]), 'GOpt' if se[1]['ev'] == 'execopt' else '(GE %s)' % hist.g_event(se[1])))
     maps = glist(full['maps'] + [full['maps_end']],
@@ -340,8 +392,9 @@ def encode(case, obs):
     finals = glist(list(enumerate(full['finals'])), lambda js: gpair(gnat(js[0]), hist.g_snap(js[1], ccfg)))
     solo = glist(list(enumerate(obs['solo'])), lambda js: gpair(gnat(js[0]), hist.g_snap(js[1], ccfg)))
     return ('{| c9_cfg := %s; c9_steps := %s; c9_maps := %s; c9_finals := %s; c9_solo := %s; c9_quiescent := %s; '
-            'c9_obsonly := %s; c9_exc := false |}') % (hist.g_cfg(case['cfg'], ccfg), steps, maps_steps, finals, solo,
-                                                       gbool(quiescent(case)), gbool(bool(case.get('obs_only'))))
+            'c9_obsonly := %s; c9_spsteps := %s; c9_exc := false |}') % (
+                hist.g_cfg(case['cfg'], ccfg), steps, maps_steps, finals, solo,
+                gbool(quiescent(case)), gbool(bool(case.get('obs_only'))), spsteps)
 
 
 def nontrivial(case, obs):
@@ -352,6 +405,8 @@ def nontrivial(case, obs):
 
 def features(case, obs):
     f = ['k=%d' % len(case['progs']), 'strategy=' + case['cfg']['strategy']]
+    if any(op[0].startswith('sp_') for p in case['progs'] for op in p):
+        f.append('savepoints-replayed')
     if obs.get('exc'):
         f.append('exception')
     else:
